@@ -49,6 +49,41 @@ PROPS = {
         "projection": "feemult",
         "oracles": ["feemult"],
     },
+    "C02": {
+        "modules": ["C02"],
+        "streams": [{"name": "apply", "quick": 60, "thorough": 900}, {"name": "chain", "quick": 25, "thorough": 300}],
+        "projection": "coins_after_batch",
+        "oracles": ["utxo_reference"],
+        "assumptions": ["faucet marker ids are disjoint from transaction hashes (domain-separated keyed hash) — hypothesis MarkersApart of C02_exact"],
+    },
+    "C04": {
+        "modules": ["C04"],
+        "streams": [{"name": "apply", "quick": 60, "thorough": 900}, {"name": "exec", "quick": 500, "thorough": 10000}],
+        "projection": "status",
+        "oracles": [],
+        "assumptions": ["Ed25519 verification and blake3 are parameters: the model is given the answers the real executor obtained (hook log) and a missing answer is a disagreement"],
+    },
+    "C05": {
+        "modules": ["C05"],
+        "streams": [{"name": "apply", "quick": 60, "thorough": 900}, {"name": "seal", "quick": 30, "thorough": 400}, {"name": "weight", "quick": 200, "thorough": 3000}],
+        "projection": "fees",
+        "oracles": ["fees"],
+        "assumptions": ["the serialised length of a transaction is an input of the model (supplied by the implementation)"],
+    },
+    "C13": {
+        "modules": ["C13"],
+        "streams": [{"name": "apply", "quick": 60, "thorough": 900}, {"name": "chain", "quick": 25, "thorough": 300}],
+        "projection": "stakes",
+        "oracles": ["stakes"],
+        "assumptions": ["the decoded StakeDoc of a transaction's data is an input of the model (decoded by the real stdcode)"],
+    },
+    "C19": {
+        "modules": ["C19"],
+        "streams": [{"name": "apply", "quick": 60, "thorough": 900}, {"name": "chain", "quick": 25, "thorough": 300}],
+        "projection": "coins_after_batch",
+        "oracles": ["faucet"],
+        "assumptions": ["no covenant hashes to the zero address; marker ids are disjoint from transaction hashes and reward ids (keyed-hash domain separation)"],
+    },
     "C20": {
         "modules": ["C20"],
         "streams": [{"name": "apply", "quick": 40, "thorough": 600}, {"name": "seal", "quick": 40, "thorough": 600}, {"name": "chain", "quick": 30, "thorough": 400}],
